@@ -6,6 +6,7 @@ import (
 	"fmt"
 	"sync"
 	"testing"
+	"time"
 
 	goat "github.com/avos-io/goat"
 	"google.golang.org/grpc/codes"
@@ -607,3 +608,112 @@ func execC03Cut(t *testing.T, c C03Cut) (v Verdict) {
 }
 
 func TestC03Cut(t *testing.T) { checkProp(t, "C03", "cut", genC03Cut, execC03Cut) }
+
+// ---- C03 parked send: the handler ends the RPC while a send of the caller is still inside the transport ----------
+
+// C03ParkedSend: a client-streaming or bidirectional handler reads Read messages and returns Ret (success or any of the
+// failure kinds) while a further SendMsg of the caller - issued from a second goroutine, as the API allows - is parked
+// inside the transport write (a slow transport). Whatever that send returns once the stream is over, the caller's
+// receive reports the handler's outcome: io.EOF for nil, otherwise its status.
+type C03ParkedSend struct {
+	Kind int         `json:"kind"`
+	Ret  kit.ErrSpec `json:"ret"`
+	Read int         `json:"read"`
+	Ser  bool        `json:"ser"`
+	// RecvFirst: the caller is already parked in its receive when the handler returns (else it starts receiving after)
+	RecvFirst bool `json:"recv_first"`
+}
+
+func genC03ParkedSend(t *rapid.T) C03ParkedSend {
+	return C03ParkedSend{Kind: rapid.SampledFrom([]int{kit.KindClient, kit.KindBidi}).Draw(t, "kind"), Ret: kit.GenErrSpec(t, 40), Read: rapid.IntRange(0, 3).Draw(t, "read"), Ser: rapid.Bool().Draw(t, "ser"), RecvFirst: rapid.Bool().Draw(t, "recv_first")}
+}
+
+func execC03ParkedSend(t *testing.T, c C03ParkedSend) (v Verdict) {
+	clog := &kit.CLog{}
+	hlog := &kit.HLog{}
+	var parked kit.ErrObs
+	parkedReturned := false
+	res := kit.Bubble(t, func() {
+		svc := kit.NewSvc()
+		sched := kit.NewSched()
+		var prog kit.HProg
+		for i := 0; i < c.Read; i++ {
+			prog.Ops = append(prog.Ops, kit.HOp{Op: "recv"})
+		}
+		prog.Ret = c.Ret
+		svc.Stream("s", true, c.Kind == kit.KindBidi, func(s grpcServerStream) error {
+			for i := 0; i < c.Read; i++ {
+				if _, err := kit.RecvBytes(s); err != nil {
+					return err
+				}
+			}
+			sched.Park(nil, "return")
+			return kit.RunHandler(kit.HProg{Ret: c.Ret}, s, hlog)
+		})
+		w := kit.NewWorld(kit.Topo{Kind: "direct", Serialize: c.Ser, Clients: 1}, svc, nil, nil)
+		l := w.Links[0]
+		marker := []byte("parked-send")
+		l.A.Hold(func(r *kit.Rpc) bool { return bytes.Equal(unwrapBytes(r.GetBody().GetData()), marker) })
+		ctx, cancel := context.WithTimeout(context.Background(), time.Hour)
+		defer cancel()
+		cs, err := w.Conn(0).NewStream(ctx, kit.StreamDescFor(c.Kind), kit.FullMethod("s"))
+		if err != nil {
+			v.failf("open: %v", err)
+			return
+		}
+		pl := kit.Payload{Class: "lit", Lit: []byte{1, 2, 3}}
+		var ops []kit.COp
+		for i := 0; i < c.Read; i++ {
+			ops = append(ops, kit.COp{Op: "send", P: &pl})
+		}
+		kit.RunClientOps(ops, cs, cancel, clog)
+		kit.Settle() // the handler has read its messages and is about to return
+		sdone := make(chan struct{})
+		go func() {
+			defer close(sdone)
+			parked = kit.Observe(kit.SendBytes(cs, marker))
+			parkedReturned = true
+		}()
+		kit.Settle() // the send sits in the transport write
+		rdone := make(chan struct{})
+		recv := func() {
+			defer close(rdone)
+			kit.RunClientOps([]kit.COp{{Op: "recvall"}, {Op: "trailer"}}, cs, cancel, clog)
+		}
+		if c.RecvFirst {
+			go recv()
+			kit.Settle()
+		}
+		sched.ReleaseGate("return")
+		kit.Settle() // the handler has returned; its trailer has reached the caller
+		if !c.RecvFirst {
+			go recv()
+			kit.Settle()
+		}
+		l.A.Hold(nil)
+		l.ReleaseAll()
+		kit.Settle()
+		<-rdone
+		<-sdone
+		w.Shutdown()
+		kit.Settle()
+	})
+	if res.Panic != nil {
+		v.failf("panic: %v\n%s", res.Panic, res.Stack)
+	}
+	s := clog.Snapshot()
+	if s.RecvEnd == nil {
+		v.failf("caller never observed the end of the stream")
+	} else if msg := oracleStatus("s", c.Ret, *s.RecvEnd, true); msg != "" {
+		v.failf("%s (the handler ended the RPC while a send of the caller was parked in the transport; that send returned %q)", msg, parked.Raw)
+	}
+	if !parkedReturned {
+		v.failf("the send parked in the transport never returned")
+	}
+	v.Info = kit.CaseInfo{Labels: []string{"parked-send", "kind=" + kit.KindNames[c.Kind], "ret=" + c.Ret.Kind}, NonTrivial: true, Key: fmt.Sprintf("%+v", c), Sample: c}
+	return
+}
+
+func TestC03ParkedSend(t *testing.T) {
+	checkProp(t, "C03", "parked-send", genC03ParkedSend, execC03ParkedSend)
+}
